@@ -29,11 +29,25 @@ Known findings, stated as they are in the theorems' guards:
 -/
 namespace Hio.Memo
 
+/-- configuration histories: the constructor and EVERY property assignment (`.code`, `.curt`, `.size`, in any order, any number of
+times) leave the stored gram size at or above the minimum for the code and encoding then in force — the `.code` and `.curt` setters
+re-clamp by re-assigning the stored size — so `rend` always works from a zeroth body size ≥ 1 -/
+theorem setters_legal (code : Bytes) (curt : Bool) (size : Nat) (hist : List Setter) (cfg0 cfg : TxCfg)
+    (h0 : mkCfg code curt size = .ok cfg0) (h : applySetters cfg0 hist = .ok cfg) : Legal cfg :=
+  applySetters_legal cfg0 cfg hist (mkCfg_legal code curt size cfg0 h0) h
+
+/-- … and an assignment never lowers a requested size: after `.size = n` the stored size is ≥ n; re-clamping a legal configuration
+(what `self.size = self._size` does when code and encoding did not change) is the identity -/
+theorem size_setter_spec (cfg cfg' : TxCfg) (n : Nat) (h : applySetter cfg (.size n) = .ok cfg') :
+    Legal cfg' ∧ cfg'.code = cfg.code ∧ cfg'.curt = cfg.curt ∧ n ≤ cfg'.size ∧ (Legal cfg → applySetter cfg (.size cfg.size) = .ok cfg) := by
+  obtain ⟨h1, h2, h3, h4⟩ := setSize_legal cfg cfg' n h
+  exact ⟨h1, h2, h3, h4, fun hl => setSize_idem cfg hl⟩
+
 /-- C20 sender side: whenever `rend` produces grams for a non-empty memo, with `bs` the bodies it cut:
 `bs` concatenates to the memo; no body is empty; there are exactly `|bs|` grams and the count field of the zeroth gram encodes `|bs|`;
 gram 0 is zeroth-header ++ body 0 (++ signature) and gram `i ≥ 1` is later-header with number `i` ++ body `i` (++ signature). -/
 theorem rend_fuse (cfg : TxCfg) (sign : Bytes → Bytes → Except Exn Bytes) (memo : Bytes) (vid : Option Bytes) (mid : Bytes) (grams : List Bytes)
-    (hne : memo ≠ []) (h : rend cfg sign memo vid mid = .ok grams) :
+    (hleg : Legal cfg) (hne : memo ≠ []) (h : rend cfg sign memo vid mid = .ok grams) :
     ∃ pl, rendPlan cfg memo.length vid mid = .ok pl ∧
       (bodies pl.zbz pl.nbz memo).flatten = memo ∧
       (∀ b ∈ bodies pl.zbz pl.nbz memo, b ≠ [] ∧ b.length ≤ max pl.zbz pl.nbz) ∧
@@ -47,7 +61,7 @@ theorem rend_fuse (cfg : TxCfg) (sign : Bytes → Bytes → Except Exn Bytes) (m
   split at h
   · simp at h
   · rename_i pl hpl
-    obtain ⟨hz, hn, hcnt, _⟩ := rendPlan_ok cfg memo.length vid mid pl hpl
+    obtain ⟨hz, hn, hcnt, _⟩ := rendPlan_ok cfg memo.length vid mid pl hleg hpl
     have hflat := bodies_flatten pl.zbz pl.nbz memo hn
     have hlen := bodies_length pl.zbz pl.nbz memo hne hn
     have hb := bodies_bound pl.zbz pl.nbz memo hz hn
@@ -293,7 +307,24 @@ theorem redelivered_on_full_replay :
       [[(⟨[1], none, 0, some 2, [104]⟩, 7), (⟨[1], none, 1, none, [105]⟩, 7)], [(⟨[1], none, 1, none, [105]⟩, 7), (⟨[1], none, 0, some 2, [104]⟩, 7)]] []
       = [some ⟨[104, 105], 7, none⟩, some ⟨[104, 105], 7, none⟩] := by decide
 
+/-- `rend_fuse` after ANY configuration history: constructor, then any assignments, then `rend` -/
+theorem rend_fuse_after_history (code : Bytes) (curt : Bool) (size : Nat) (hist : List Setter) (cfg0 cfg : TxCfg)
+    (sign : Bytes → Bytes → Except Exn Bytes) (memo : Bytes) (vid : Option Bytes) (mid : Bytes) (grams : List Bytes)
+    (h0 : mkCfg code curt size = .ok cfg0) (hh : applySetters cfg0 hist = .ok cfg) (hne : memo ≠ [])
+    (h : rend cfg sign memo vid mid = .ok grams) :
+    ∃ pl, rendPlan cfg memo.length vid mid = .ok pl ∧ 1 ≤ pl.zbz ∧
+      (bodies pl.zbz pl.nbz memo).flatten = memo ∧ grams.length = (bodies pl.zbz pl.nbz memo).length ∧
+      numField cfg.curt grams.length pl.nz = .ok pl.gcnt := by
+  have hleg := setters_legal code curt size hist cfg0 cfg h0 hh
+  obtain ⟨pl, h1, h2, _, h4, h5, _⟩ := rend_fuse cfg sign memo vid mid grams hleg hne h
+  exact ⟨pl, h1, (rendPlan_ok cfg memo.length vid mid pl hleg h1).1, h2, h4, h5⟩
+
 /-! ### non-vacuity / concrete tests (bounded checks, not the unbounded claims) -/
+
+/-- test: the history of seeded change C20-m3 — size 150 chosen for the plain code, then the code switched to the signed one — re-clamps to 165 -/
+example : (mkCfg [98, 65, 65, 65] false 150).bind (fun c => applySetters c [.code [98, 65, 65, 67]]) = .ok ⟨[98, 65, 65, 67], false, 165⟩ := by decide
+/-- test: signed code with Base2 headers at 140, then back to Base64 text headers: 165 -/
+example : (mkCfg [98, 65, 65, 67] true 140).bind (fun c => applySetters c [.curt false]) = .ok ⟨[98, 65, 65, 67], false, 165⟩ := by decide
 
 /-- the hypotheses of the header round trip are met by the plain zeroth code `bAAA` with count 2 and a 24 character mid -/
 example : ∃ s num, sizesOf [98, 65, 65, 65] = .ok s ∧ Gen.zeroDex.contains [98, 65, 65, 65] = true ∧ s.vz = 0 ∧ s.az = 0 ∧ 1 ≤ s.nz ∧
